@@ -194,7 +194,8 @@ def rule_resolve(ctx, ts, reg):
 
 def rule_options(ctx, ts, reg):
     R = "R-C06-OPTIONS"
-    ctx.rule(R, "every options.<key> read by a template of language L is defined for L in properties.yaml (or set by the language's option validation)")
+    ctx.rule(R, "every options.<key> read by a template of language L is defined for L in properties.yaml (or set by the language's option validation); "
+             "Python code asks option keys through get_option and section-level keys through get_config_value*, never the other way round")
     N = ts.nodes
     n = 0
     for t in ts.templates:
@@ -212,6 +213,53 @@ def rule_options(ctx, ts, reg):
             ctx.ob(R, t.rel, f"options.{k} @ {j2front.construct_path(stack)}", ok,
                    "" if ok else f"option `{k}` is not defined for language {t.lang}: StrictUndefined aborts generation on this path", node.lineno)
     ctx.floor(R, n, 8)
+    # the Python side reads the same configuration through two accessors: get_option(<key>) looks under `options`, get_config_value*(<key>)
+    # at the language section itself.  The two key sets of properties.yaml are disjoint, so a key asked at the wrong level silently
+    # yields the caller's default (a configured `prefer_system_includes: true` asked as an option is always False).
+    import yaml
+    cfg = yaml.safe_load((ts.root / "src" / "nunavut" / "lang" / "properties.yaml").read_text())
+    opt_keys, sect_keys = set(), set()
+    for body in cfg.values():
+        for k_, v_ in (body or {}).items():
+            if k_ == "options":
+                opt_keys |= set((v_ or {}).keys())
+            else:
+                sect_keys.add(k_)
+        for grp in ((body or {}).get("defaults") or {}).values():
+            opt_keys |= set((grp or {}).keys())
+    px = reg.px if hasattr(reg, "px") else None
+    m = 0
+    if px is not None:
+        consts = {}
+        lang_cls = px.cls("nunavut.lang._language", "Language")
+        for st_ in lang_cls.node.body:
+            if isinstance(st_, ast.Assign) and isinstance(st_.targets[0], ast.Name) and isinstance(st_.value, ast.Constant) and isinstance(st_.value.value, str):
+                consts[st_.targets[0].id] = st_.value.value
+        for f in px.all_funcs:
+            if f.outer is not None:
+                continue
+            for c in ast.walk(f.node):
+                if not (isinstance(c, ast.Call) and isinstance(c.func, ast.Attribute) and c.args):
+                    continue
+                a0 = c.args[0]
+                key = a0.value if isinstance(a0, ast.Constant) and isinstance(a0.value, str) else (
+                    consts.get(a0.attr) if isinstance(a0, ast.Attribute) and a0.attr.startswith("WKCV_") else None)
+                if key is None:
+                    continue
+                if c.func.attr == "get_option":
+                    m += 1
+                    ok = key in opt_keys
+                    ctx.ob(R, f.module.rel, f"{f.short} :: get_option('{key}') names a language option", ok,
+                           "" if ok else (f"`{key}` is a section-level setting of properties.yaml, not an entry of `options`: the lookup always returns the default, "
+                                          "whatever is configured" if key in sect_keys else f"`{key}` is defined nowhere in properties.yaml"), c.lineno)
+                elif c.func.attr in ("get_config_value", "get_config_value_as_bool", "get_config_value_as_list", "get_config_value_as_dict") and len(c.args) <= 2 \
+                        and not (isinstance(c.func.value, ast.Attribute) and c.func.value.attr == "_config"):
+                    m += 1
+                    ok = key in sect_keys
+                    ctx.ob(R, f.module.rel, f"{f.short} :: {c.func.attr}('{key}') names a section-level setting", ok,
+                           "" if ok else (f"`{key}` is a language option (under `options`): asked at the section level it is never found" if key in opt_keys
+                                          else f"`{key}` is defined nowhere in properties.yaml"), c.lineno)
+        ctx.floor(R + ":python-keys", m, 20)
 
 
 C_SUPPORT_ONLY = re.compile(r"\b(NUNAVUT_[A-Z0-9_]+|nunavut[A-Z][A-Za-z0-9_]*)\b")
@@ -283,6 +331,48 @@ def _strip_comments(text, lang):
     return text
 
 
+def _include_table(f):
+    """[(header expression text, [(condition text, polarity)], line)] for every header Language.get_includes can add: statements that
+    append / add / extend the include container, elements of its initial literal, and rows of a (header, condition) table that a
+    comprehension filters by the condition.  Conditions held in locals are spelled as their expressions."""
+    def spelled(e):
+        try:
+            return ast.unparse(pyfront.subst_locals(f.node, ast.parse(e, mode="eval").body))
+        except SyntaxError:
+            return e
+    rows = []
+    for st, gd in pyfront.walk_guarded(f.node.body):
+        terms = [(spelled(e), p) for e, p in pyfront.guard_terms(gd)]
+        if isinstance(st, ast.Expr) and isinstance(st.value, ast.Call) and isinstance(st.value.func, ast.Attribute) \
+                and st.value.func.attr in ("append", "extend", "insert", "add", "update") and "include" in ast.unparse(st.value.func.value):
+            rows.append((ast.unparse(st.value.args[-1]) if st.value.args else "?", terms, st.lineno))
+        elif isinstance(st, (ast.Assign, ast.AnnAssign)) and st.value is not None and isinstance(st.value, (ast.List, ast.Set, ast.Tuple)) \
+                and "include" in ast.unparse(st.targets[0] if isinstance(st, ast.Assign) else st.target):
+            rows += [(ast.unparse(e), terms, st.lineno) for e in st.value.elts]
+        elif isinstance(st, ast.Return) and st.value is not None:
+            for comp in [c for c in ast.walk(st.value) if isinstance(c, (ast.ListComp, ast.GeneratorExp, ast.SetComp))]:
+                if len(comp.generators) != 1:
+                    continue
+                g = comp.generators[0]
+                tbl = pyfront.subst_locals(f.node, g.iter)
+                if isinstance(g.target, ast.Tuple) and len(g.target.elts) == 2 and all(isinstance(x, ast.Name) for x in g.target.elts) \
+                        and isinstance(tbl, (ast.Tuple, ast.List)) and all(isinstance(r, ast.Tuple) and len(r.elts) == 2 for r in tbl.elts):
+                    hv, cv = g.target.elts[0].id, g.target.elts[1].id
+                    filt = [ast.unparse(i) for i in g.ifs]
+                    for r in tbl.elts:
+                        h_, c_ = r.elts
+                        if isinstance(h_, ast.Constant) and isinstance(c_, ast.Constant) and not isinstance(h_.value, str):
+                            h_, c_ = c_, h_
+                        extra = []
+                        if filt == [cv]:
+                            if not (isinstance(c_, ast.Constant) and c_.value is True):
+                                extra = list(pyfront.guard_terms([(pyfront.subst_locals(f.node, c_), True)]))
+                        elif filt:
+                            extra = [(f"<{' and '.join(filt)}>", True)]
+                        rows.append((ast.unparse(h_), terms + [(spelled(e), p) for e, p in extra], st.lineno))
+    return rows
+
+
 def rule_std_includes(ctx, px):
     R = "R-C06-STD-INCLUDES"
     ctx.rule(
@@ -292,17 +382,12 @@ def rule_std_includes(ctx, px):
     )
     f = px.func("nunavut.lang.c", "Language.get_includes")
     cond = None
-    for st, gd in pyfront.walk_guarded(f.node.body):
-        if isinstance(st, ast.Expr) and "stdint.h" in ast.unparse(st):
-            cond = pyfront.guard_terms(gd)
+    for hdr, terms, _ln in _include_table(f):
+        if "stdint.h" in hdr:
+            cond = terms
     if cond is None:
         raise AnalysisError("anchor missing: stdint.h in C get_includes")
-    def _spelled(e):  # a hoisted local (`needs_stdint = a or b or c`) is spelled as its value
-        try:
-            return ast.unparse(pyfront.subst_locals(f.node, ast.parse(e, mode="eval").body))
-        except SyntaxError:
-            return e
-    txt = " ".join(_spelled(e) for e, p in cond if p)
+    txt = " ".join(e for e, p in cond if p)
     for flag, why in (("uses_integer", "integer fields and union tags"),
                       ("uses_boolean_static_array", "bool[N] is stored bit-packed in uint8_t"),
                       ("uses_variable_length_array", "bool[<=N] is stored bit-packed in uint8_t")):
@@ -316,7 +401,23 @@ def rule_std_includes(ctx, px):
     for st, gd in pyfront.walk_guarded(b.node.body):
         if isinstance(st, ast.Assign) and any(isinstance(t, ast.Attribute) and t.attr == "uses_integer" for t in st.targets) \
                 and isinstance(st.value, ast.Constant) and st.value.value is True:
-            if any(("UnionType" in e or "_defines_union" in e) and pos for e, pos in pyfront.guard_terms(gd)):
+            def about_unions(e, depth=0, seen=()):
+                """the condition tests for a union, directly or through the private helpers it calls"""
+                if "UnionType" in e:
+                    return True
+                if depth > 3 or b.cls is None:
+                    return False
+                try:
+                    node_ = ast.parse(e, mode="eval").body
+                except SyntaxError:
+                    return False
+                for c_ in ast.walk(node_):
+                    if isinstance(c_, ast.Call) and isinstance(c_.func, ast.Attribute) and isinstance(c_.func.value, ast.Name) and c_.func.value.id in ("cls", "self") \
+                            and c_.func.attr in b.cls.methods and c_.func.attr not in seen:
+                        if about_unions(ast.unparse(b.cls.methods[c_.func.attr].node), depth + 1, seen + (c_.func.attr,)):
+                            return True
+                return False
+            if any(about_unions(e) and pos for e, pos in pyfront.guard_terms(gd)):
                 ok = True
     ctx.ob(R, b.module.rel, f"{b.short} :: unions count as integer users (tag field)", ok, "", b.node.lineno)
 
@@ -646,27 +747,12 @@ def rule_include_monotone(ctx, px):
     n = 0
     for modname in ("nunavut.lang.c", "nunavut.lang.cpp"):
         f = px.func(modname, "Language.get_includes")
-
-        def spelled(e, f=f):
-            try:
-                return ast.unparse(pyfront.subst_locals(f.node, ast.parse(e, mode="eval").body))
-            except SyntaxError:
-                return e
-        for st, gd in pyfront.walk_guarded(f.node.body):
-            added = []  # header expressions this statement puts into the include container (list or set, literal or call)
-            if isinstance(st, ast.Expr) and isinstance(st.value, ast.Call) and isinstance(st.value.func, ast.Attribute) \
-                    and st.value.func.attr in ("append", "extend", "insert", "add", "update") and "include" in ast.unparse(st.value.func.value):
-                added = [ast.unparse(st.value.args[-1])] if st.value.args else ["?"]
-            elif isinstance(st, (ast.Assign, ast.AnnAssign)) and st.value is not None and isinstance(st.value, (ast.List, ast.Set, ast.Tuple)) \
-                    and "include" in ast.unparse(st.targets[0] if isinstance(st, ast.Assign) else st.target):
-                added = [ast.unparse(e) for e in st.value.elts]
-            for what in added:
-                n += 1
-                terms = pyfront.guard_terms(gd)
-                neg = [spelled(e) for e, p in terms if not p and "dep_types." in spelled(e)]
-                ctx.ob(R, f.module.rel, f"{f.short} :: include {what}", not neg,
-                       "" if not neg else f"added only when NOT ({' / '.join(neg)}): a type that uses both features loses {what} and its header "
-                       "does not compile on its own", st.lineno)
+        for what, terms, ln in _include_table(f):
+            n += 1
+            neg = [e for e, p in terms if not p and "dep_types." in e]
+            ctx.ob(R, f.module.rel, f"{f.short} :: include {what}", not neg,
+                   "" if not neg else f"added only when NOT ({' / '.join(neg)}): a type that uses both features loses {what} and its header "
+                   "does not compile on its own", ln)
     ctx.floor(R, n, 8)
 
 
